@@ -1440,6 +1440,8 @@ def grid_auto_flow(tokens):
 def grid_template(tokens):
     """``grid-template-columns`` and ``grid-template-rows`` validation."""
     return_tokens = []
+    if not tokens:
+        return
     if len(tokens) == 1 and get_keyword(tokens[0]) == 'none':
         return 'none'
     if get_keyword(tokens[0]) == 'subgrid':
